@@ -147,6 +147,11 @@ func VerifyProof(
 	proof *ProofNodeSet,
 	hash crypto.HashFn,
 ) (felt.Felt, error) {
+	// An empty trie (zero root) proves the absence of every key with an empty proof
+	if root.IsZero() && (proof == nil || proof.Size() == 0) {
+		return felt.Zero, nil
+	}
+
 	var keyBits BitArray
 	keyBits.SetFelt(globalTrieHeight, keyFelt)
 	expectedHash := root
